@@ -11,6 +11,7 @@ import ast
 import itertools
 import json
 import random
+import signal
 import sys
 import warnings
 
@@ -34,6 +35,26 @@ a0, a1, a2 = sympy.symbols('a0 a1 a2', real=True)
 
 class Refuse(Exception):
     pass
+
+
+class TimeUp(Exception):
+    pass
+
+
+def _alarm(signum, frame):
+    raise TimeUp()
+
+
+signal.signal(signal.SIGALRM, _alarm)
+
+
+def limited(seconds, f, *a):
+    """run f(*a) under a wall-clock limit; TimeUp is raised inside f when it expires"""
+    signal.setitimer(signal.ITIMER_REAL, seconds)
+    try:
+        return f(*a)
+    finally:
+        signal.setitimer(signal.ITIMER_REAL, 0)
 
 
 # ------------------------------------------------------------------ dump in print order
@@ -146,13 +167,15 @@ def ok_expr(e):
     for n in sympy.preorder_traversal(e):
         if isinstance(n, BAD_TYPES) or any(n is b for b in BAD_ATOMS):
             return False
+        if isinstance(n, Rational) and (abs(n.p) >= 10 ** 9 or n.q >= 10 ** 9):
+            return False   # ESR never has such literals; str() of huge ints also hits CPython's digit limit
     return True
 
 
 def safe(f, *a):
     try:
-        e = f(*a)
-    except Exception:
+        e = limited(2.0, f, *a)
+    except (Exception, TimeUp):
         return None
     return e if ok_expr(e) else None
 
@@ -241,10 +264,11 @@ def build(seed, n_random, depth3_cap, max_depth, shard=0, nshards=1):
     while got < want and tries < 20 * want + 100:
         tries += 1
         d = rng.randint(4, max_depth)
-        e = random_expr(rng, d)
-        if e is None or e in seen:
-            continue
-        if sympy.count_ops(e) > 60:
+        try:
+            e = limited(5.0, random_expr, rng, d)
+            if e is None or e in seen or sympy.count_ops(e) > 60:
+                continue
+        except (Exception, TimeUp):
             continue
         seen.add(e)
         out.append(("r%d" % d, e))
@@ -281,10 +305,10 @@ def corr(exprs, seed):
     for tag, e, s1 in first:
         prints = [s1, reused.doprint(e), ESRPrinter().doprint(e)]
         try:
-            e2 = sympy.sympify(srepr(e))
+            e2 = limited(5.0, lambda: sympy.sympify(srepr(e)))
             if e2 == e:
                 prints.append(ESRPrinter().doprint(e2))
-        except Exception:
+        except (Exception, TimeUp):
             pass
         if len(set(prints)) != 1:
             impure.append(dict(srepr=srepr(e), prints=prints))
@@ -296,6 +320,10 @@ def corr(exprs, seed):
             d = dump(e, precs, pr)
         except Refuse as r:
             k = str(r)
+            refused[k] = refused.get(k, 0) + 1
+            continue
+        except Exception as ex:
+            k = "dump raised %s" % type(ex).__name__
             refused[k] = refused.get(k, 0) + 1
             continue
         try:
@@ -341,16 +369,18 @@ def evaluator(e, subexprs=False):
         npos = len(pos)
         subs = [e] + pos + [n for n in nodes if n is not e and not n.is_Atom]
     try:
-        f = sympy.lambdify(syms, subs, modules="mpmath")
-    except Exception:
+        f = limited(5.0, sympy.lambdify, syms, subs, "mpmath")
+    except (Exception, TimeUp):
         return lambda pt: None
 
     def ev(pt):
-        try:
+        def run():
             with mpmath.workdps(30):
                 vs = f(*[mpmath.mpf(pt[s.name]) for s in syms])
-                cs = [complex(v) for v in vs]
-        except Exception:
+                return [complex(v) for v in vs]
+        try:
+            cs = limited(2.0, run)
+        except (Exception, TimeUp):
             return None
         for c in cs:
             if c != c or abs(c) > 1e60 or abs(c) == float("inf"):
@@ -364,14 +394,40 @@ def evaluator(e, subexprs=False):
     return ev
 
 
+def evalf_fallback(e, pt):
+    def run():
+        subs = {sy: sympy.Float(pt[sy.name], 30) for sy in e.free_symbols}
+        return complex(sympy.N(e, 30, subs=subs))
+    try:
+        c = limited(5.0, run)
+    except (Exception, TimeUp):
+        return None
+    if c != c or abs(c) > 1e60:
+        return None
+    return c
+
+
+def safe_srepr(e):
+    try:
+        return srepr(e)
+    except Exception as ex:
+        return "<srepr raised %s>" % type(ex).__name__
+
+
 def tables():
+    """name -> function(printed string) -> sympy expression, using the REAL reading code"""
     import esr.fitting.sympy_symbols as ss
-    gen = dict(ss.sympy_locs)
-    # simplifier.initial_sympify adds the real parameter symbols to sympy_locs before sympify
-    gen.update({"a0": a0, "a1": a1, "a2": a2})
-    # Likelihood.run_sympify's locals
-    fit = {"inv": ss.inv, "square": ss.square, "cube": ss.cube, "sqrt": ss.sqrt, "log": ss.log, "pow": ss.pow,
-           "x": ss.x, "a0": ss.a0, "a1": ss.a1, "a2": ss.a2}
+    from esr.fitting.likelihood import Likelihood
+
+    def gen(s):
+        # simplifier.initial_sympify: locs = sympy_locs plus the real parameter symbols, sympy.sympify(s, locals=locs)
+        locs = dict(ss.sympy_locs)
+        locs.update({"a0": a0, "a1": a1, "a2": a2})
+        return sympy.sympify(s, locals=locs)
+
+    def fit(s):
+        # Likelihood.run_sympify does not use self
+        return Likelihood.run_sympify(None, s)[1]
     return {"generation": gen, "fitting": fit}
 
 
@@ -397,20 +453,37 @@ def search(exprs, seed):
         res["checked"] += 1
         for tname, locs in tabs.items():
             try:
-                back = sympy.sympify(s, locals=dict(locs))
+                back = limited(10.0, lambda: locs(s))
+            except TimeUp:
+                res["timeouts"] = res.get("timeouts", 0) + 1
+                continue
             except Exception as ex:
                 res["unparsable"].append(dict(srepr=srepr(e), printed=s, table=tname, error=repr(ex)[:200]))
                 continue
             ev1 = evaluator(back)
             for i in good:
                 v1 = ev1(pts[i])
+                if v1 is None:
+                    v1 = evalf_fallback(back, pts[i])   # lambdify chokes on huge integer literals; sympy's evalf does not
                 v0 = vals0[i]
                 if v1 is None or abs(v1 - v0) > 1e-9 * max(1.0, abs(v0)):
                     res["failures"].append(dict(kind="value", srepr=srepr(e), printed=s, table=tname, point=pts[i],
-                                                original=repr(v0), reparsed=repr(v1), reparsed_srepr=srepr(back)))
+                                                original=repr(v0), reparsed=repr(v1), reparsed_srepr=safe_srepr(back)))
                     break
         if len(res["samples"]) < 6 and tag.startswith("r"):
             res["samples"].append(dict(srepr=srepr(e), printed=s, point=pts[good[0]], value=repr(vals0[good[0]])))
+    # outside C12's domain (ESR only prints evaluated trees): an unevaluated Add directly inside an Add.
+    # Recorded, not judged: Coq witness C12_nested_add_refuted.
+    try:
+        ne = Add(x, Add(-a0, a1, evaluate=False), evaluate=False)
+        ns = ESRPrinter().doprint(ne)
+        back = tabs["generation"](ns)
+        pt = {"x": 1.0, "a0": 0.5, "a1": 2.0, "a2": 1.0}
+        res["observations"] = [dict(what="unevaluated nested Add: the sign of the inner first term is pulled out of the parentheses",
+                                    srepr=srepr(ne), printed=ns, sympy_str=sympy.sstr(ne),
+                                    original_value=repr(evaluator(ne)(pt)), reparsed_value=repr(evaluator(back)(pt)), point=pt)]
+    except Exception as ex:
+        res["observations"] = [dict(what="nested-Add probe failed", error=repr(ex))]
     res["n_failures"] = len(res["failures"])
     res["failures"] = res["failures"][:20]
     res["unparsable"] = res["unparsable"][:20]
